@@ -583,6 +583,39 @@ def _collect_decls(formulas, names):
     return list(out.values())
 
 
+def _string_consts(formulas):
+    out, seen, stack = {}, set(), list(formulas)
+    while stack:
+        x = stack.pop()
+        i = x.get_id()
+        if i in seen:
+            continue
+        seen.add(i)
+        if z3.is_quantifier(x):
+            stack.append(x.body())
+            continue
+        if z3.is_const(x) and x.decl().kind() == z3.Z3_OP_UNINTERPRETED and x.sort() == z3.StringSort():
+            out[x.decl().name()] = x
+        elif z3.is_app(x):
+            if x.decl().kind() == z3.Z3_OP_UNINTERPRETED and x.sort() == z3.StringSort() and not _has_var(x):
+                out[x.sexpr()] = x       # the (ground) result of an abstract function: also text we may choose
+            stack.extend(x.children())
+    return list(out.values())
+
+
+def _has_var(x):
+    stack, seen = [x], set()
+    while stack:
+        y = stack.pop()
+        if y.get_id() in seen:
+            continue
+        seen.add(y.get_id())
+        if z3.is_var(y):
+            return True
+        stack.extend(y.children())
+    return False
+
+
 def refine_model(ob, s, rounds=8, timeout_s=5.0, formulas=None):
     """A model may give the abstract stdlib functions (int(), float(), lower() ...) values that CPython does not
     give them at the model's own strings.  Such a model is not a counterexample.  Add the true ground facts at those
@@ -594,6 +627,31 @@ def refine_model(ob, s, rounds=8, timeout_s=5.0, formulas=None):
     decls = _collect_decls(formulas, set(nat))
     if not apps and not decls:
         return "sat", s.model()
+    # search heuristic: look for a counterexample made of printable ASCII text first -- there the abstract functions are
+    # pinned down by the general facts above and a few ground points, instead of an endless chase through exotic code
+    # points (a model found under an extra restriction is still a model)
+    try:
+        consts = _string_consts(formulas)
+        if consts:
+            s2 = z3.Solver()
+            s2.set("timeout", int(timeout_s * 1000))
+            for f in s.assertions():
+                s2.add(f)
+            # ... first without upper-case letters (lower() is then the identity by the general fact), then any printable
+            lowerp = z3.Star(z3.Union(z3.Range(" ", "@"), z3.Range("[", "~")))
+            printable = z3.Star(z3.Range(" ", "~"))
+            for lang in (lowerp, printable):
+                s2 = z3.Solver()
+                s2.set("timeout", int(timeout_s * 1000))
+                for f in s.assertions():
+                    s2.add(f)
+                for c in consts:
+                    s2.add(z3.InRe(c, lang))
+                if timed_check(s2, timeout_s) == z3.sat:
+                    s = s2
+                    break
+    except Exception:  # noqa: BLE001
+        pass
     # general true facts first (they let the solver pick easy points): ASCII text without upper-case letters is its
     # own lower(), without lower-case letters its own upper()
     asc = z3.Range(chr(0), chr(127))
@@ -693,9 +751,13 @@ def refine_model(ob, s, rounds=8, timeout_s=5.0, formulas=None):
                         steering[0] = True
         if not facts:
             return "sat", m
+        if os.environ.get("PYVC_DEBUG_REFINE"):
+            print("REFINE round: adding", [str(f)[:120] for f in facts], flush=True)
         for f in facts:
             s.add(f)
         r = timed_check(s, timeout_s)
+        if os.environ.get("PYVC_DEBUG_REFINE"):
+            print("REFINE ->", r, flush=True)
         if r == z3.unsat:
             return ("unknown" if steering[0] else "unsat"), None
         if r != z3.sat:
